@@ -12,6 +12,7 @@ CONSTANTS
   Horizon = 2
   AllowFaults = FALSE
   AllowCancel = FALSE
+  AllowStall = FALSE
   AbstractTime = FALSE
   LeakSearchIdOnDone = FALSE
   AbandonKeepsTargetId = FALSE
